@@ -77,14 +77,29 @@ def summarize(fi, max_paths=400, unroll=1, follow_exc=False):
         # disjunctive outcome inside one test: keep what both alternatives share
         return a & b
 
-    def walk(nid, ps, visits, rebound):
+    def walk(nid, ps, visits, rebound, override=None):
         if len(out) >= max_paths:
             return
         node = cfg.nodes[nid]
+        st0 = node.stmt
+        if override is None and node.kind in ("stmt", "return") and isinstance(st0, (ast.Assign, ast.AnnAssign, ast.Return)) and \
+                isinstance(getattr(st0, "value", None), ast.IfExp) and node.ast is st0:
+            # a conditional expression is a branch: one path per outcome
+            ghosts = tuple(p for p in params if p not in rebound)
+            for outcome, branch in ((True, st0.value.body), (False, st0.value.orelse)):
+                nps = _fork(ps)
+                r = refine_bool(st0.value.test, outcome, nps.facts, atom_for(ghosts), join)
+                if r is None:
+                    continue
+                nps.facts = r
+                walk(nid, nps, visits, rebound, override=branch)
+            return
         if nid == cfg.exit:
             out.append(ps)
             return
         if nid == cfg.raise_exit:
+            if ps.exc is None:
+                ps.exc = "<propagated>"   # reached over an exception edge: some statement raised
             out.append(ps)
             return
         c = visits.get(nid, 0)
@@ -105,8 +120,8 @@ def summarize(fi, max_paths=400, unroll=1, follow_exc=False):
         try:
             if node.kind == "stmt" and st is not None and node.ast is st:
                 if isinstance(st, ast.Assign):
-                    v = _expr(st.value, env)
-                    for c_ in _calls_in(st.value, env):
+                    v = _expr(override if override is not None else st.value, env)
+                    for c_ in _calls_in(override if override is not None else st.value, env):
                         ps.events.append(("call", c_))
                     for t in st.targets:
                         _assign(t, v, env)
@@ -116,7 +131,7 @@ def summarize(fi, max_paths=400, unroll=1, follow_exc=False):
                     for t in st.targets:
                         ps.events.append(("del", _target_text(t, env)))
                 elif isinstance(st, ast.AnnAssign) and st.value is not None:
-                    _assign(st.target, _expr(st.value, env), env)
+                    _assign(st.target, _expr(override if override is not None else st.value, env), env)
                 elif isinstance(st, ast.AugAssign):
                     cur = _expr(st.target, env)
                     r = _expr(st.value, env)
@@ -132,9 +147,10 @@ def summarize(fi, max_paths=400, unroll=1, follow_exc=False):
                         return
                     ps.facts = r
             elif node.kind == "return":
-                for c_ in (_calls_in(st.value, env) if st.value is not None else []):
+                rv = override if override is not None else st.value
+                for c_ in (_calls_in(rv, env) if rv is not None else []):
                     ps.events.append(("call", c_))
-                ps.ret = _expr(st.value, env) if st.value is not None else ("const", None)
+                ps.ret = _expr(rv, env) if rv is not None else ("const", None)
                 ps.returned = True
             elif node.kind == "raise_stmt":
                 exc = st.exc
